@@ -4,8 +4,10 @@ Reference-model monitor: every call of neutron_scattering / neutron_sld / atom.n
 by the workload is compared, output by output and wavelength by wavelength, with pvmon.ref.neutron (own table
 reader, documented equations in plain complex arithmetic, own clamped linear interpolation, own masses).
 In-process: a postcondition wrapper on nsf._calculate_scattering, LINE counters for the two branches of
-Neutron.scattering_by_wavelength and for the incoherent clip, floating-point exception monitor, and an
-input-immutability monitor (pvmon.ref.neutron.ArgumentGuard) on the five entry points.
+Neutron.scattering_by_wavelength and for the incoherent clip (all three anchored on private code and therefore
+optional: absent / re-written in a tree, they are skipped, noted and their reach requirements waived through
+anchor_missing.*), floating-point exception monitor, and an input-immutability monitor
+(pvmon.ref.neutron.ArgumentGuard) on the five public entry points.
 History: the 'buffer' cases pass ONE mutable wavelength/energy object (ndarray or list) to consecutive calls and
 modify it in place between them (refill, rescale, shift, single item, reverse, append), with no other call in
 between; every call is judged by the reference for the values the buffer holds at that moment."""
@@ -120,7 +122,6 @@ def _wrap_calculate(ctx, nsf):
 
 
 def setup(ctx):
-    import inspect
     import periodictable as pt
     from periodictable import nsf
     from ..ref.neutron import NeutronModel
@@ -510,6 +511,8 @@ def _compare(ctx, got, counts, rho, ws, shape, label, sld_only=False, **detail):
     nbad = 0
     for i, w in enumerate(ws):
         ref, floors = m.reference_with_floors(counts, rho, w)
+        if ref[5] == 0:
+            ctx.count('reference.incoherent_clip_active')
         obs = [float(x[i]) if shape else float(x) for x in flat]
         if sld_only:
             obs = obs + list(ref[3:])
@@ -866,6 +869,20 @@ def finish(ctx):
     ctx.count('postcondition.evaluations', _post['calls'])
     ctx.count('postcondition.clip_active', _post['clip_active'])
     _post['calls'] = _post['clip_active'] = 0
+    # the postcondition sits on a PRIVATE function: calls it could not read (other parameters / other result
+    # structure) or a tree whose public calculators do not go through that function make it evidence only
+    from ..ref.neutron import anchor_missing, waive_if_bypassed
+    unread = 0
+    for name in ('contract._calculate_scattering.unrecognised_call', 'contract._calculate_scattering.unrecognised_result'):
+        ctx.count(name, _post[name])
+        unread += _post[name]
+        _post[name] = 0
+    if unread and not ctx.counters.get('postcondition.evaluations', 0):
+        anchor_missing(ctx, 'postcondition on nsf._calculate_scattering', ['postcondition.evaluations', 'postcondition.clip_active'],
+                       why='met %d calls whose arguments or result it does not recognise and none it does' % unread)
+    if waive_if_bypassed(ctx, 'postcondition.evaluations', 'reach.neutron_scattering', 'postcondition on nsf._calculate_scattering'):
+        anchor_missing(ctx, 'clip counter of that postcondition and the line counter in that function',
+                       ['postcondition.clip_active', 'reach.line.incoherent_clip'], why='go with it')
     n_tabled = len(_state['tabled'])
     seen = sum(1 for k in list(ctx.counters) if k.startswith('energy_dependent_entry_seen.'))
     ctx.info['energy_dependent_entries_seen_by_this_shard'] = seen
@@ -874,6 +891,12 @@ def finish(ctx):
                     'each of the %d energy-dependent entries must be exercised' % n_tabled)
     ctx.require('postcondition.evaluations', 1, 'the postcondition on nsf._calculate_scattering must have been evaluated')
     ctx.require('postcondition.clip_active', 1, 'the incoherent clip (sigma_s < sigma_c) must have been active at least once')
+    ctx.require('reference.incoherent_clip_active', 1, 'a compared call for which the documented equations clip the incoherent '
+                'cross section to zero (public-level counterpart of postcondition.clip_active)')
+    # a line anchor that exists in this tree but sits in code the public calculators no longer run through is
+    # evidence only (the branch is then reached some other way; the per-entry requirements above prove the workload)
+    for label in ('branch.table', 'branch.constant', 'line.incoherent_clip'):
+        waive_if_bypassed(ctx, 'reach.' + label, 'reach.neutron_scattering', 'line counter %s' % label)
     ctx.require('reach.branch.table', 1, 'table branch of Neutron.scattering_by_wavelength entered')
     ctx.require('reach.branch.constant', 1, 'constant branch of Neutron.scattering_by_wavelength entered')
     ctx.require('reach.line.incoherent_clip', 1, 'np.maximum clip line of _calculate_scattering executed')
